@@ -21,6 +21,58 @@ impl R {
 }
 """
 
+# objects whose value members have destructors: W has a destructor of its own, P has none.  Constructing one is
+# constructing its members and then the object, so at scope exit the object goes first, then b, then a.
+HDR2 = """struct W { R a; R b; int tag; };
+impl W {
+    self(int t) { self.tag = t; self.a.id = t * 100 + 1; self.b.id = t * 100 + 2; println("c%d", t); }
+    ~self() { println("d%d", self.tag); }
+}
+struct P { R a; R b; int tag; };
+impl P {
+    self(int t) { self.tag = t; self.a.id = t * 100 + 1; self.b.id = t * 100 + 2; println("c%d", t); }
+}
+"""
+
+
+def oform(n, mode):
+    """0: flat object, 1: W (own destructor + members), 2: P (members only)"""
+    return n % 3 if mode == 1 else 0
+
+
+def expand(spec, mode):
+    """the specification trace of a skeleton whose objects are rendered in compound forms"""
+    if mode == 0:
+        return spec
+    out = []
+    for e in spec:
+        if e[0] == "d":
+            n = int(e[1:])
+            f = oform(n, mode)
+            if f != 2:
+                out.append(e)
+            if f != 0:
+                out += ["d%d" % (n * 100 + 2), "d%d" % (n * 100 + 1)]
+        else:
+            out.append(e)
+    return out
+
+
+def compound_in_loop(funcs, mode):
+    """does a compound object stand lexically inside a loop body? (cell of an interim finding)"""
+    def go(sk, inl):
+        k = sk[0]
+        if k == "obj":
+            return inl and oform(sk[1], mode) != 0
+        if k == "block":
+            return any(go(x, inl) for x in sk[1])
+        if k == "if":
+            return any(go(x, inl) for x in sk[2])
+        if k == "loop":
+            return any(go(x, True) for x in sk[2])
+        return False
+    return any(go(s, False) for f in funcs for s in f)
+
 
 def sx(sk):
     k = sk[0]
@@ -35,12 +87,12 @@ def sx(sk):
     return "(%s)" % k
 
 
-def render_stmt(sk, ind, ctr, is_main):
+def render_stmt(sk, ind, ctr, is_main, mode=0):
     p = "    " * ind
     k = sk[0]
     if k == "obj":
         ctr[0] += 1
-        return p + "R o%d(%d);\n" % (ctr[0], sk[1])
+        return p + "%s o%d(%d);\n" % ("RWP"[oform(sk[1], mode)], ctr[0], sk[1])
     if k == "defer":
         return p + "defer println(\"f%d\");\n" % sk[1]
     if k == "mark":
@@ -48,13 +100,13 @@ def render_stmt(sk, ind, ctr, is_main):
     if k == "call":
         return p + "fn%d();\n" % sk[1]
     if k == "block":
-        return p + "{\n" + "".join(render_stmt(x, ind + 1, ctr, is_main) for x in sk[1]) + p + "}\n"
+        return p + "{\n" + "".join(render_stmt(x, ind + 1, ctr, is_main, mode) for x in sk[1]) + p + "}\n"
     if k == "if":
-        return p + "if (%d) {\n" % sk[1] + "".join(render_stmt(x, ind + 1, ctr, is_main) for x in sk[2]) + p + "}\n"
+        return p + "if (%d) {\n" % sk[1] + "".join(render_stmt(x, ind + 1, ctr, is_main, mode) for x in sk[2]) + p + "}\n"
     if k == "loop":
         ctr[0] += 1
         v = "i%d" % ctr[0]
-        body = "".join(render_stmt(x, ind + 1, ctr, is_main) for x in sk[2])
+        body = "".join(render_stmt(x, ind + 1, ctr, is_main, mode) for x in sk[2])
         form = (ctr[0] * 5 + sk[1]) % 3
         if form == 0:
             return p + "for (int %s = 0; %s < %d; %s++) {\n" % (v, v, sk[1], v) + body + p + "}\n"
@@ -73,12 +125,12 @@ def render_stmt(sk, ind, ctr, is_main):
     raise ValueError(k)
 
 
-def render(funcs):
+def render(funcs, mode=0):
     ctr = [0]
-    out = [HDR]
+    out = [HDR + (HDR2 if mode else "")]
     for i in range(len(funcs) - 1, 0, -1):
-        out.append("void fn%d() {\n%s}\n" % (i, "".join(render_stmt(s, 1, ctr, False) for s in funcs[i])))
-    out.append("int main() {\n%s    return 0;\n}\n" % "".join(render_stmt(s, 1, ctr, True) for s in funcs[0]))
+        out.append("void fn%d() {\n%s}\n" % (i, "".join(render_stmt(s, 1, ctr, False, mode) for s in funcs[i])))
+    out.append("int main() {\n%s    return 0;\n}\n" % "".join(render_stmt(s, 1, ctr, True, mode) for s in funcs[0]))
     return "".join(out)
 
 
@@ -209,11 +261,17 @@ def main(a):
     drv = common.driver_path()
     quick = a.tier == "quick"
     if a.replay:
-        progs = [json.load(open(a.replay))["funcs"]]
+        rp = json.load(open(a.replay))
+        progs, modes = [rp["funcs"]], [rp.get("mode", 0)]
     else:
-        progs = list(exhaustive(quick)) + list(random_programs(a.seed, 400 if quick else 30000))
+        base = list(exhaustive(quick)) + list(random_programs(a.seed, 400 if quick else 30000))
+        # every skeleton once with flat objects and once with objects whose value members have destructors
+        progs, modes = base + base, [0] * len(base) + [1] * len(base)
+    listed = {f["id"]: f for f in json.load(open(os.path.join(common.ROOT, "known_findings.json"))).get("findings", [])
+              if f["property"] == PID}
+    known_cells = {}
     _, mo, _ = common.run_lines_parallel([drv, "c06"], [model_line(f) for f in progs])
-    srcs = [render(f) for f in progs]
+    srcs = [render(f, md) for f, md in zip(progs, modes)]
     outs = common.run_programs(exe, srcs, timeout=10)
     rep = 0
     nontrivial = set()
@@ -226,19 +284,26 @@ def main(a):
         mech, spec = fld[1].split(), fld[3].split()
         if mech != spec or fld[4] != "0" or fld[5] != "0":
             strict += 1      # the model itself deviates from its specification (a proof obligation would fail)
+        spec = expand(spec, modes[k])
         got = o[0].split()
         if any(e[0] in "df" for e in spec):
-            nontrivial.add(fld[3])
+            nontrivial.add((modes[k], fld[3]))
         if k % 53 == 0 and len(samples) < 6:
-            samples.append({"skeleton": model_line(f)[:300], "trace": fld[3][:200]})
+            samples.append({"skeleton": model_line(f)[:300], "mode": modes[k], "trace": " ".join(spec)[:200]})
         if got != spec or o[1] != "ok":
+            fid = "member_destructors_skipped_on_redeclaration"
+            if fid in listed and modes[k] == 1 and compound_in_loop(f, 1) and o[1] == "ok":
+                known_cells[fid] = known_cells.get(fid, 0) + 1
+                continue
             if rep >= 3:
                 continue
             rep += 1
             v.violation("cleanup trace differs from the specification: expected %s got %s (%s)" % (
                 " ".join(spec)[-160:], " ".join(got)[-160:], o[1]),
-                {"funcs": f, "program": srcs[k], "expected": spec, "got": got, "mechanism_model": mech,
+                {"funcs": f, "mode": modes[k], "program": srcs[k], "expected": spec, "got": got, "mechanism_model": mech,
                  "impl_exit_class": o[1], "impl_stderr": o[2]})
+    for fid, n in known_cells.items():
+        v.known_finding(listed[fid]["what"] + " [%d generated programs]" % n)
     if strict:
         v.violation("the mechanism model deviates from its own specification on %d generated skeletons" % strict,
                     {"theorem": "CbProps.C06.run_refines_spec"}, no_input=True)
@@ -249,7 +314,11 @@ def main(a):
                 "exhaustive: every callee body of <= 2 statements to nesting depth 1 (blocks, loops, return/break/continue) "
                 "called from 3 sites of a caller that owns cleanup; random: depth <= 4, <= 3 functions. non-trivial = "
                 "distinct expected trace containing a destructor or defer event",
-        "samples": samples, "exhaustive": not quick})
+        "samples": samples, "exhaustive": not quick,
+        "object_forms": "every skeleton is rendered twice: with flat objects R, and with objects chosen by id among R, "
+                        "W (own destructor and two value members with destructors) and P (no own destructor, two such "
+                        "members); a compound object counts as its members constructed first, then the object",
+        "known_finding_programs": known_cells})
     v.assumptions += ["recursion and cleanup inside async tasks are not generated",
                       "the return expression is not part of the skeleton (its evaluation relative to cleanup is not checked)"]
     return v.finish()
